@@ -330,6 +330,37 @@ def check_shapes(res):
                                   dict(case, point=list(p)))
             res.outcomes[f"shape:{exp}"] += 1
         res.sample(case, 2)
+        # shapes DERIVED from this one after it has been queried (its caches are filled): the derived shape's point test must denote the set that
+        # the derived shape's own public parameters (centre, radius, vertices, length / width / orientation) describe
+        from mc.checks.c11 import snap_to_spec
+        from mc import snap as _snap
+        for how in ("rotate_translate_local", "translate_rotate"):
+            for tr, ang in (((3.0, -2.0), 0.0), ((0.0, 0.0), 0.9), ((1.5, 2.0), -2.2)):
+                dcase = dict(case, derived=how, t=list(tr), a=ang)
+                res.evals += 1; res.transitions += 1
+                try:
+                    sh = spec.mk_shape(sp)
+                    for q in pts[::97]:
+                        sh.contains_point(np.array(q))
+                    for m in (sh.shapes if sp[0] == "group" else [sh]):
+                        m.shapely_object
+                    d = getattr(sh, how)(np.array(tr), ang)
+                    _snap.RECT_VERTICES = False
+                    dsp = snap_to_spec(_snap.shape(d))
+                    dq = probe_points(tuple(dsp) if dsp[0] != "group" else ("group", [tuple(m) for m in dsp[1]])) + [(x + tr[0], y + tr[1]) for x, y in pts[::41]]
+                    for q in dq:
+                        e_ = expect_contains(dsp, q)
+                        g_ = bool(d.contains_point(np.array(q)))
+                        if e_ is None:
+                            res.guarded += 1
+                        elif g_ != e_:
+                            res.violation(f"C06|{sp[0]}.{how}->contains_point|containment!=own-parameters:{'wrong-true' if g_ else 'wrong-false'}",
+                                          f"{sp} after {how}({tr}, {ang}) has parameters {dsp}; point {q}: contains_point={g_}", dict(dcase, point=list(q)))
+                            break
+                        else:
+                            res.nontrivial += 1
+                except Exception as e:
+                    res.violation(f"C06|{sp[0]}.{how}|raises:{type(e).__name__}", repr(e), dcase)
 
 
 def subsets(tier):
